@@ -310,3 +310,31 @@ pub fn quotient_compute(
 pub fn pp_trim(pp: &PublicParameters, n: usize) -> Result<(CommitKey, OpeningKey), Error> {
     pp.trim(n)
 }
+
+// ---------------------------------------------------------------------------
+// Checked decoders (for bounded model checking of totality)
+// ---------------------------------------------------------------------------
+
+pub fn commit_key_from_raw_var_bytes(b: &[u8]) -> Result<CommitKey, Error> {
+    CommitKey::from_raw_var_bytes(b)
+}
+pub fn commit_key_from_slice(b: &[u8]) -> Result<CommitKey, Error> {
+    CommitKey::from_slice(b)
+}
+pub fn opening_key_from_slice(b: &[u8]) -> Result<OpeningKey, Error> {
+    use dusk_bytes::DeserializableSlice;
+    OpeningKey::from_slice(b).map_err(Error::from)
+}
+pub fn prover_key_from_slice(b: &[u8]) -> Result<usize, Error> {
+    ProverKey::from_slice(b).map(|k| k.n)
+}
+pub fn evaluations_from_slice(b: &[u8]) -> Result<usize, Error> {
+    Evaluations::from_slice(b).map(|e| e.evals.len())
+}
+pub fn polynomial_from_slice(b: &[u8]) -> Result<usize, Error> {
+    Polynomial::from_slice(b).map(|p| p.len())
+}
+pub fn evaluation_domain_from_bytes(b: &[u8; 172]) -> bool {
+    use dusk_bytes::Serializable;
+    EvaluationDomain::from_bytes(b).is_ok()
+}
